@@ -1,6 +1,19 @@
 (* Spec/PatternSemantics.v -- what STIX patterns mean (C09; DESIGN.md 6/C09, Appendix A.5).
 
-   Independent of the normaliser.  Everything is parameterised by an ARBITRARY
+   Independent of the normaliser's PASSES (flatten, order, absorb, DNF, settle,
+   the special-value pass): none of them is mentioned here.  NOT independent of
+   the model file as a whole: the denotation of a constant (den_prim, den_atom
+   below) is built from helper functions DEFINED IN Model/PatternEq.v and also
+   used by the model's comparators and special-value pass -- hex_decode,
+   b64_decode (bytes of hex / base64 literals), inet_aton, py_int, find_cp,
+   mask arithmetic via ipv4_net_of (the network of an IPv4 text), special_kind
+   (which paths are special), is_matches, and, in the hypothesis respects_cidr6,
+   ip_canon true (the IPv6 canonical text).  These helpers are a SHARED TRUSTED
+   BASE of specification and model: an error in one of them is invisible to the
+   soundness theorems (special_sound, equiv_sound).  They are anchored on known
+   vectors (Props/C09.v, Examples anchor_*: RFC 4648 section 10 for base64,
+   glibc inet_aton forms, CIDR masking) and exercised against the running
+   implementation by the correspondence run.  Everything is parameterised by an ARBITRARY
    interpretation of the atomic comparisons
 
        H : object type -> path -> operator -> negated -> denotation of the constant -> object -> bool
@@ -22,7 +35,10 @@
      10.0.0.0/8) -- except the regular expression of MATCHES, which is always
      seen as written.  (For ipv6-addr:value the corresponding statement is a
      hypothesis on H, respects_cidr6: the model's restatement of inet_pton /
-     inet_ntop has no independent specification here.)
+     inet_ntop has no independent specification here; the hypothesis is
+     stated WITH the model's ip_canon true, i.e. for IPv6 the soundness
+     theorems assume that canonicalisation preserves meaning rather than
+     prove it.)
 
    Comparison expressions: andb / orb over ONE object.
    Observation expressions: bindings (duplicate-free lists of observation
